@@ -50,8 +50,11 @@ func (d *c01PluginDriver) QuotaUpsert(old, new *v1alpha1.ElasticQuota) error {
 	}
 	return nil
 }
-func (d *c01PluginDriver) QuotaDelete(obj *v1alpha1.ElasticQuota) error { d.pl.OnQuotaDelete(obj); return nil }
-func (d *c01PluginDriver) PodAdd(_ string, pod *corev1.Pod)            { d.pl.OnPodAdd(pod) }
+func (d *c01PluginDriver) QuotaDelete(obj *v1alpha1.ElasticQuota) error {
+	d.pl.OnQuotaDelete(obj)
+	return nil
+}
+func (d *c01PluginDriver) PodAdd(_ string, pod *corev1.Pod) { d.pl.OnPodAdd(pod) }
 func (d *c01PluginDriver) PodUpdate(_, _ string, newPod, oldPod *corev1.Pod) {
 	d.pl.OnPodUpdate(oldPod, newPod)
 }
